@@ -34,6 +34,8 @@ IsCall(c) ==
     \/ \E l \in 2..(MaxL - 1), k1 \in 1..2, k2 \in 1..2 :
          \E x \in One(l), m1 \in One(k1), m2 \in One(k2), sp \in -1..2, st \in Starts(l) :
             c = Call("multisubstitute", x, <<m1, m2>>, st, 0, <<sp>>)
+    \/ \E l \in 1..MaxL, k \in 1..2 : \E x \in One(l), m \in One(k), st \in Starts(l) :          \* a single motif, no spacing
+            c = Call("multisubstitute", x, <<m>>, st, 0, <<>>)
     \/ \E x \in Seqs(MaxL), m1 \in Seqs(1), m2 \in Seqs(1), m3 \in Seqs(2), s1 \in 0..2, s2 \in 0..1, st \in Starts(MaxL) :
             c = Call("multisubstitute", <<x>>, << <<m1>>, <<m2>>, <<m3>> >>, st, 0, <<s1, s2>>)
     \/ \E x \in Distinct2(MaxLB), m12 \in Two(1), m3 \in Seqs(1), s1 \in 0..1, st \in Starts(MaxLB) :   \* per-example first motif
@@ -72,6 +74,7 @@ Theorems == (pc = "ret" /\ exp.zone = "accept") =>
             /\ \A i \in 1..Len(call.x) : SubSeq(exp.y[i], p + 1, p + m) = MotifFor(call.mo[1], i)
             /\ SubB(exp.y, [i \in 1..Len(call.x) |-> SubSeq(call.x[i], p + 1, p + m)], p) = call.x
       [] call.op = "multisubstitute" ->      \* equals the sequential substitution
+            IF Len(call.mo) = 1 THEN exp.y = SubB(call.x, call.mo[1], SubStart(call.x, call.mo[1], call.start)) ELSE
             LET m1 == call.mo[1] m2 == call.mo[2]
                 lens == [k \in 1..Len(call.mo) |-> MotLen(call.mo[k])]
                 p0 == IF call.start = NoStart
